@@ -3,9 +3,10 @@ import BipVerif.Driver.Bip32
 import BipVerif.Driver.Mnemonic
 import BipVerif.Driver.Addr
 import BipVerif.Driver.Bip44
+import BipVerif.Driver.Bip38
 open BipVerif.Driver
 
-def allOps : List (String × Op) := codecOps ++ bip32Ops ++ mnemonicOps ++ addrOps ++ bip44Ops
+def allOps : List (String × Op) := codecOps ++ bip32Ops ++ mnemonicOps ++ addrOps ++ bip44Ops ++ bip38Ops
 
 def handle (line : String) : String :=
   match (line.trimAscii.toString.splitOn " ").filter (· ≠ "") with
